@@ -188,9 +188,13 @@ static void model_apply(json_t *st, const mop_t *op, mres_t *r)
 }
 
 /* ---- receivers ---- */
-enum { RCV_BH, RCV_BC, RCV_JBH, RCV_JBC, RCV_JCH, RCV_JCC, NRCV };
+/* the last two: the token of a builder that already holds {"a":5,"b":"y"} -- the map starts non-empty, and whatever the callback does to the
+ * token, the builder's own map reads back unchanged afterwards */
+enum { RCV_BH, RCV_BC, RCV_JBH, RCV_JBC, RCV_JCH, RCV_JCC, RCV_JBH2, RCV_JBC2, NRCV };
 static const char *rcv_name[NRCV] = { "builder-headers", "builder-claims", "jwt_t-in-builder-callback/headers", "jwt_t-in-builder-callback/claims",
-				      "jwt_t-in-checker-callback/headers", "jwt_t-in-checker-callback/claims" };
+				      "jwt_t-in-checker-callback/headers", "jwt_t-in-checker-callback/claims",
+				      "jwt_t-in-callback-of-a-filled-builder/headers", "jwt_t-in-callback-of-a-filled-builder/claims" };
+static const char FILLED[] = "{\"a\":5,\"b\":\"y\"}";
 
 typedef struct {
 	int rcv;
@@ -212,7 +216,7 @@ static void impl_apply(mrun_t *run, jwt_t *jwt, const mop_t *op, mres_t *r)
 	jwt_value_t v;
 	memset(&v, 0, sizeof v);
 	memset(r, 0, sizeof *r);
-	int hdr = run->rcv == RCV_BH || run->rcv == RCV_JBH || run->rcv == RCV_JCH;
+	int hdr = run->rcv == RCV_BH || run->rcv == RCV_JBH || run->rcv == RCV_JCH || run->rcv == RCV_JBH2;
 	if (op->kind == 2) {
 		r->verr = -1;
 		if (jwt)
@@ -296,7 +300,7 @@ static void impl_apply(mrun_t *run, jwt_t *jwt, const mop_t *op, mres_t *r)
 static void whole_dump(mrun_t *run, jwt_t *jwt)
 {
 	jwt_value_t v;
-	int hdr = run->rcv == RCV_BH || run->rcv == RCV_JBH || run->rcv == RCV_JCH;
+	int hdr = run->rcv == RCV_BH || run->rcv == RCV_JBH || run->rcv == RCV_JCH || run->rcv == RCV_JBH2;
 	jwt_set_GET_JSON(&v, NULL);
 	int rc;
 	if (jwt)
@@ -325,6 +329,8 @@ static json_t *rcv_initial(int rcv)
 		return json_loads("{\"alg\":\"none\",\"h\":true}", 0, NULL);
 	if (rcv == RCV_JCC)
 		return json_loads("{\"c\":\"tok\"}", 0, NULL);
+	if (rcv == RCV_JBH2 || rcv == RCV_JBC2)
+		return json_loads(FILLED, 0, NULL);
 	return json_object();
 }
 
@@ -345,6 +351,30 @@ static void impl_run(mrun_t *run)
 		jwt_builder_setcb(b, map_cb, run);
 		char *t = jwt_builder_generate(b);
 		free(t);
+		jwt_builder_free(b);
+	} else if (run->rcv == RCV_JBH2 || run->rcv == RCV_JBC2) {
+		jwt_builder_t *b = jwt_builder_new();
+		jwt_value_t v;
+		int hdr = run->rcv == RCV_JBH2;
+		jwt_builder_enable_iat(b, 0);
+		jwt_set_SET_INT(&v, "a", 5);
+		hdr ? jwt_builder_header_set(b, &v) : jwt_builder_claim_set(b, &v);
+		jwt_set_SET_STR(&v, "b", "y");
+		hdr ? jwt_builder_header_set(b, &v) : jwt_builder_claim_set(b, &v);
+		jwt_builder_setcb(b, map_cb, run);
+		char *t = jwt_builder_generate(b);
+		vf_lfree(t);
+		/* the builder's own map is what it was */
+		jwt_set_GET_JSON(&v, NULL);
+		int rc = hdr ? jwt_builder_header_get(b, &v) : jwt_builder_claim_get(b, &v);
+		json_t *got = rc == JWT_VALUE_ERR_NONE && v.json_val ? json_loads(v.json_val, 0, NULL) : NULL, *want = json_loads(FILLED, 0, NULL);
+		if (!got || !json_equal(got, want))
+			vf_violation("map|builder-changed-through-its-token", "%s: the builder held %s; after generating a token whose callback ran its own sets and deletes on the token, it holds %s",
+				     rcv_name[run->rcv], FILLED, v.json_val ? v.json_val : "(get failed)");
+		if (v.json_val)
+			vf_lfree(v.json_val);
+		json_decref(got);
+		json_decref(want);
 		jwt_builder_free(b);
 	} else {
 		jwt_checker_t *c = jwt_checker_new();
